@@ -52,6 +52,7 @@ func RunInspections(layout Layout, runDir string, lineNormalization bool, useDSS
 			paths = []string{runDir}
 		}
 
+		verifEmit("inspection_exec", inspection.Name, runDir)
 		linkEnv, err := InTotoRun(inspection.Name, runDir, paths, paths,
 			inspection.Run, Key{}, []string{"sha256"}, nil, nil, lineNormalization, false, useDSSE)
 
@@ -790,6 +791,7 @@ func VerifySublayouts(layout Layout,
 					stepName, keyID)
 				sublayoutLinkPath := filepath.Join(superLayoutLinkPath,
 					sublayoutLinkDir)
+				verifEmit("sublayout_enter", stepName, keyID, sublayoutLinkPath)
 				summaryLink, err := InTotoVerify(metadata, layoutKeys,
 					sublayoutLinkPath, stepName, make(map[string]string), intermediatePems, lineNormalization)
 				if err != nil {
@@ -912,10 +914,12 @@ func InTotoVerify(layoutEnv Metadata, layoutKeys map[string]Key,
 	linkDir string, stepName string, parameterDictionary map[string]string, intermediatePems [][]byte, lineNormalization bool) (
 	Metadata, error) {
 
+	verifEmit("verify_entry", stepName, linkDir)
 	// Verify root signatures
 	if err := VerifyLayoutSignatures(layoutEnv, layoutKeys); err != nil {
 		return nil, err
 	}
+	verifEmit("layout_sig_ok")
 
 	useDSSE := false
 	if _, ok := layoutEnv.(*Envelope); ok {
@@ -932,6 +936,7 @@ func InTotoVerify(layoutEnv Metadata, layoutKeys map[string]Key,
 	if err := VerifyLayoutExpiration(layout); err != nil {
 		return nil, err
 	}
+	verifEmit("expiry_ok")
 
 	// Substitute parameters in layout
 	layout, err := SubstituteParameters(layout, parameterDictionary)
@@ -949,6 +954,7 @@ func InTotoVerify(layoutEnv Metadata, layoutKeys map[string]Key,
 	if err != nil {
 		return nil, err
 	}
+	verifEmit("links_loaded")
 
 	// Verify link signatures
 	stepsMetadataVerified, err := VerifyLinkSignatureThesholds(layout,
@@ -956,6 +962,7 @@ func InTotoVerify(layoutEnv Metadata, layoutKeys map[string]Key,
 	if err != nil {
 		return nil, err
 	}
+	verifEmit("thresholds_ok")
 
 	// Verify and resolve sublayouts
 	stepsSublayoutVerified, err := VerifySublayouts(layout,
@@ -963,6 +970,7 @@ func InTotoVerify(layoutEnv Metadata, layoutKeys map[string]Key,
 	if err != nil {
 		return nil, err
 	}
+	verifEmit("sublayouts_ok")
 
 	// Verify command alignment (WARNING only)
 	VerifyStepCommandAlignment(layout, stepsSublayoutVerified)
@@ -982,11 +990,13 @@ func InTotoVerify(layoutEnv Metadata, layoutKeys map[string]Key,
 		stepsMetadataReduced); err != nil {
 		return nil, err
 	}
+	verifEmit("step_rules_ok")
 
 	inspectionMetadata, err := RunInspections(layout, "", lineNormalization, useDSSE)
 	if err != nil {
 		return nil, err
 	}
+	verifEmit("inspections_run")
 
 	// Add steps metadata to inspection metadata, because inspection artifact
 	// rules may also refer to artifacts reported by step links
@@ -998,12 +1008,14 @@ func InTotoVerify(layoutEnv Metadata, layoutKeys map[string]Key,
 		inspectionMetadata); err != nil {
 		return nil, err
 	}
+	verifEmit("inspection_rules_ok")
 
 	summaryLink, err := GetSummaryLink(layout, stepsMetadataReduced, stepName, useDSSE)
 	if err != nil {
 		return nil, err
 	}
 
+	verifEmit("verify_return_ok", stepName)
 	return summaryLink, nil
 }
 
@@ -1052,10 +1064,12 @@ func InTotoVerifyWithDirectory(layoutEnv Metadata, layoutKeys map[string]Key,
 		return nil, err
 	}
 
+	verifEmit("verify_entry", stepName, linkDir)
 	// Verify root signatures
 	if err := VerifyLayoutSignatures(layoutEnv, layoutKeys); err != nil {
 		return nil, err
 	}
+	verifEmit("layout_sig_ok")
 
 	useDSSE := false
 	if _, ok := layoutEnv.(*Envelope); ok {
@@ -1072,6 +1086,7 @@ func InTotoVerifyWithDirectory(layoutEnv Metadata, layoutKeys map[string]Key,
 	if err := VerifyLayoutExpiration(layout); err != nil {
 		return nil, err
 	}
+	verifEmit("expiry_ok")
 
 	// Substitute parameters in layout
 	layout, err = SubstituteParameters(layout, parameterDictionary)
@@ -1089,6 +1104,7 @@ func InTotoVerifyWithDirectory(layoutEnv Metadata, layoutKeys map[string]Key,
 	if err != nil {
 		return nil, err
 	}
+	verifEmit("links_loaded")
 
 	// Verify link signatures
 	stepsMetadataVerified, err := VerifyLinkSignatureThesholds(layout,
@@ -1096,6 +1112,7 @@ func InTotoVerifyWithDirectory(layoutEnv Metadata, layoutKeys map[string]Key,
 	if err != nil {
 		return nil, err
 	}
+	verifEmit("thresholds_ok")
 
 	// Verify and resolve sublayouts
 	stepsSublayoutVerified, err := VerifySublayouts(layout,
@@ -1103,6 +1120,7 @@ func InTotoVerifyWithDirectory(layoutEnv Metadata, layoutKeys map[string]Key,
 	if err != nil {
 		return nil, err
 	}
+	verifEmit("sublayouts_ok")
 
 	// Verify command alignment (WARNING only)
 	VerifyStepCommandAlignment(layout, stepsSublayoutVerified)
@@ -1122,11 +1140,13 @@ func InTotoVerifyWithDirectory(layoutEnv Metadata, layoutKeys map[string]Key,
 		stepsMetadataReduced); err != nil {
 		return nil, err
 	}
+	verifEmit("step_rules_ok")
 
 	inspectionMetadata, err := RunInspections(layout, runDir, lineNormalization, useDSSE)
 	if err != nil {
 		return nil, err
 	}
+	verifEmit("inspections_run")
 
 	// Add steps metadata to inspection metadata, because inspection artifact
 	// rules may also refer to artifacts reported by step links
@@ -1138,11 +1158,13 @@ func InTotoVerifyWithDirectory(layoutEnv Metadata, layoutKeys map[string]Key,
 		inspectionMetadata); err != nil {
 		return nil, err
 	}
+	verifEmit("inspection_rules_ok")
 
 	summaryLink, err := GetSummaryLink(layout, stepsMetadataReduced, stepName, useDSSE)
 	if err != nil {
 		return nil, err
 	}
 
+	verifEmit("verify_return_ok", stepName)
 	return summaryLink, nil
 }
